@@ -32,8 +32,15 @@ class StrictReject(Exception):
 def make_handler(world, kind):
     from supervisor.dispatchers import RejectEvent, default_handler
 
+    def who(event):
+        for pi, ls in enumerate(world.listeners):
+            for li, p in enumerate(ls):
+                if event is not None and p.event is event:
+                    return '%d.%d' % (pi, li)
+        return '?'
+
     def strict(event, result):
-        world.trace.append('h:%s:%s' % (world.evname(event), hexs(result)))
+        world.trace.append('h:%s:%s:%s' % (who(event), world.evname(event), hexs(result)))
         if result == b'OK':
             return
         if result == b'FAIL':
@@ -41,7 +48,7 @@ def make_handler(world, kind):
         raise ValueError('handler error')
 
     def default(event, result):
-        world.trace.append('h:%s:%s' % (world.evname(event), hexs(result)))
+        world.trace.append('h:%s:%s:%s' % (who(event), world.evname(event), hexs(result)))
         default_handler(event, result)
     return strict if kind == 'strict' else default
 
@@ -67,6 +74,7 @@ class World:
         sp.GlobalSerial.serial = -1
         events.clear()
         events.subscribe(events.Event, self._see_event)
+        events.subscribe(events.EventRejectedEvent, self._see_rejected)
 
         class FakeOS(DummyOptions):
             def __init__(self):
@@ -92,7 +100,7 @@ class World:
                     self.cap -= k
                 if k:
                     self.accepted += data[:k]
-                    world.trace.append('w:' + hexs(data[:k]))
+                    world.trace.append('w:%s:%s' % (self.coords, hexs(data[:k])))
                 return k
 
         class RecProcess(Subprocess):
@@ -105,7 +113,7 @@ class World:
             @listener_state.setter
             def listener_state(self, v):
                 if world.recording:
-                    world.trace.append('ls:%s>%s' % (ls_name(self._ls), ls_name(v)))
+                    world.trace.append('ls:%d.%d:%s>%s' % (world.where(self) + (ls_name(self._ls), ls_name(v))))
                 self._ls = v
 
         class Cfg(DummyPConfig):
@@ -119,12 +127,22 @@ class World:
 
         self.pool_options = DummyOptions()
         self.pool_options.identifier = identifier
+        self.pool_names = [x[0] for x in pools]
+
+        class PoolLogger(DummyLogger):
+            def error(lg, msg, **kw):
+                # an error-level activity-log entry: which pool, which serial (no reliance on the wording)
+                nums = re.findall(r'\d+', msg.split('discarding')[-1]) if 'discarding' in msg else re.findall(r'\d+', msg)
+                pi = next((i for i, n in enumerate(world.pool_names) if n in msg), -1)
+                world.trace.append('discard:%d:%s' % (pi, nums[-1] if nums else '?'))
+        self.pool_options.logger = PoolLogger()
         self.pools, self.listeners = [], []
         handler_fn = make_handler(self, handler)
         for (name, bufsize, nl, types_) in pools:
             pcs = []
             for j in range(nl):
                 o = FakeOS()
+                o.coords = '%d.%d' % (len(self.pools), j)
                 c = Cfg(o, '%s_l%d' % (name, j), '/bin/cat', autostart=False, autorestart=False,
                         startsecs=0, exitcodes=(0,))
                 pcs.append(c)
@@ -135,7 +153,6 @@ class World:
             pool = EventListenerPool(g)
             self.pools.append(pool)
             self.listeners.append([pool.processes[c.name] for c in pcs])
-        events.subscribe(events.EventRejectedEvent, self._see_rejected)
 
     # ---- observation ---------------------------------------------------------------------
     def _see_event(self, event):
@@ -210,6 +227,8 @@ class World:
         PS = self.states.ProcessStates
 
         def f():
+            if not p.pid:
+                return          # only a live child has one of these states
             if st == 'starting':
                 p.state, p.killing = PS.STARTING, False
             elif st == 'running':
